@@ -117,6 +117,32 @@ P = {
             "trusted: model = fresh ODataLexer/ODataParser on the same input; sharing one lexer "
             "between threads is not claimed",
             "DESIGN.md 2/C20"),
+    "C07": ("non-interference monitor: SQL token skeleton (independent lexer) of the real "
+            "visitors' output under payload substitution, plus executed SQLite variant with a "
+            "canary table",
+            "Exploration by runtime monitoring: 45 filter templates with one string position "
+            "(every argument of every string function, comparison sides, in-list slots, nested "
+            "calls) x ~55 pooled + random hostile payloads x 3 dialects x alias on/off. The "
+            "token skeleton outside string literals / quoted identifiers must equal that of "
+            "the benign baseline, the payload must sit in exactly one STR token, and the SQLite "
+            "text is run with executescript next to a canary table and compared with a direct "
+            "Python evaluation.",
+            "trusted: vpmon/ref/sql_lex.py (SQL-92 lexical rules); alias is developer input",
+            "DESIGN.md 2/C07"),
+    "C09": ("M-part hook (string returned by every nested visit) + independent "
+            "standard-precedence SQL parser with token spans: fragment-is-a-complete-subtree, "
+            "operator/operand-order, leaf-count and alias monitors",
+            "Exploration by runtime monitoring: typed filters over every function the SQL "
+            "dialects implement, arbitrarily composed, with unique leaves, x 3 dialects x alias "
+            "on/off; the produced text must lex and parse, every sub-expression's own rendering "
+            "(recorded by the visit hook) must occupy a complete subtree of the independent "
+            "parse, operator nodes must map to the corresponding SQL operator with operands in "
+            "source order (AND/OR and || chains modulo associativity), unique leaves outside "
+            "calls must occur exactly once, and stripping the alias must give the alias-free "
+            "text.",
+            "trusted: vpmon/ref/sql_parse.py precedence table; refusals with a library "
+            "exception are outside the SQL-expressible fragment",
+            "DESIGN.md 2/C09"),
 }
 
 NOT_BUILT_REASON = "check not built yet in this round (design in DESIGN.md section 2); not claimed"
